@@ -183,11 +183,17 @@ func c05Run(c *run.Ctx, cfg c05Config, ops []rec.Op) bool {
 		return map[string]interface{}{"viewBox": fmt.Sprint(cfg.vb), "rect": cfg.rect.String(), "op_index": i, "op": ops[i].String(), "preceding_ops": rec.Strings(ops[lo:i])}
 	}
 	ok := true
+	// one run in eight drives the Renderer through the public logging wrapper
+	var dst ivg.Destination = &z
+	if (uint64(cfg.rect.Dy())*17+uint64(len(ops)))%8 == 3 {
+		dst = &ivg.DestinationLogger{Destination: &z, Alt: len(ops)%2 == 0}
+		c.Count("through_destination_logger", 1)
+	}
 	for i := range ops {
 		o := &ops[i]
 		penX, penY := rz.Pen()
 		before := len(rz.Calls)
-		if !c.Guard("render", func() interface{} { return desc(i) }, func() { rec.Apply(&z, o) }) {
+		if !c.Guard("render", func() interface{} { return desc(i) }, func() { rec.Apply(dst, o) }) {
 			return false
 		}
 		got := rz.Calls[before:]
